@@ -4,6 +4,7 @@ import (
 	"fmt"
 	"sort"
 	"strings"
+	"unsafe"
 
 	"gorgonia.org/tensor"
 )
@@ -208,9 +209,15 @@ func runRef(seed uint64, cfg *C19Config, prog []Op, st *C19Stats) ([]Op, []stepR
 				if st != nil {
 					st.WindowChecks++
 				}
-				if el, ok := outsideDestChanged(w, i, preWin, dests); ok {
+				if el, ok := outsideDestChanged(w, i, preWin, dests, false); ok {
 					d := fmt.Sprintf("%s changed element %d (storage order) of slot %d, which is not a destination; the element shares a backing array with the destination but is not one of the elements the destination addresses", op.Name, el, i)
 					return out, recs, &Violation{Property: "C19", Kind: "frame", Step: k, FailOp: op.Name, Detail: d, Class: "window:outside-destination"}
+				}
+			}
+			if a.Mask != b.Mask && op.Name != "DecodeInto" {
+				if el, ok := outsideDestChanged(w, i, preWin, dests, true); ok {
+					d := fmt.Sprintf("%s changed mask entry %d (storage order) of slot %d, which is not a destination; the entry lies in a mask shared with the destination but does not belong to an element the destination addresses", op.Name, el, i)
+					return out, recs, &Violation{Property: "C19", Kind: "frame", Step: k, FailOp: op.Name, Detail: d, Class: "window:mask-outside-destination"}
 				}
 			}
 		}
@@ -501,6 +508,8 @@ type winRec struct {
 	raw            []byte
 	shape, strides []int
 	esz            int
+	mptr           uintptr // the mask runs parallel to the window: mask[k] belongs to element k in storage order
+	mask           []bool
 }
 
 func captureWindows(w *World) []winRec {
@@ -515,6 +524,10 @@ func captureWindows(w *World) []winRec {
 		}
 		in := tensor.VerifInternals(t)
 		r[i] = winRec{ptr: in.RawPtr, raw: append([]byte(nil), raw...), shape: in.Shape, strides: in.Strides, esz: int(t.Dtype().Size())}
+		if m := t.Mask(); len(m) > 0 {
+			r[i].mptr = uintptr(unsafe.Pointer(&m[0]))
+			r[i].mask = append([]bool(nil), m...)
+		}
 	}
 	return r
 }
@@ -571,7 +584,8 @@ func addressed(shape, strides []int, f func(off int)) bool {
 
 // outsideDestChanged reports an element of slot i (in storage order within its window) that changed although no
 // destination addresses it, neither through the access pattern it had before the operation nor the one it has now.
-func outsideDestChanged(w *World, i int, pre []winRec, dests []int) (int, bool) {
+// mask=true does the same for mask entries.
+func outsideDestChanged(w *World, i int, pre []winRec, dests []int, mask bool) (int, bool) {
 	p := pre[i]
 	t := w.slots[i]
 	if p.raw == nil || t == nil {
@@ -580,6 +594,13 @@ func outsideDestChanged(w *World, i int, pre []winRec, dests []int) (int, bool) 
 	now := tensor.VerifRaw(t)
 	if len(now) != len(p.raw) || p.esz == 0 {
 		return 0, false
+	}
+	var nowMask []bool
+	if mask {
+		nowMask = t.Mask()
+		if len(p.mask) == 0 || len(nowMask) != len(p.mask) || uintptr(unsafe.Pointer(&nowMask[0])) != p.mptr {
+			return 0, false // the tensor got another mask slice: not a write through shared storage
+		}
 	}
 	allowed := map[uintptr]bool{}
 	understood := true
@@ -596,6 +617,17 @@ func outsideDestChanged(w *World, i int, pre []winRec, dests []int) (int, bool) 
 		if d < 0 || d >= len(w.slots) {
 			continue
 		}
+		if mask {
+			if d < len(pre) && pre[d].raw != nil && pre[d].mask != nil {
+				mark(pre[d].mptr, pre[d].shape, pre[d].strides, 1)
+			}
+			if dt := w.slots[d]; dt != nil && dt.Dtype().Type != nil && len(dt.Mask()) > 0 {
+				in := tensor.VerifInternals(dt)
+				m := dt.Mask()
+				mark(uintptr(unsafe.Pointer(&m[0])), in.Shape, in.Strides, 1)
+			}
+			continue
+		}
 		if d < len(pre) && pre[d].raw != nil {
 			mark(pre[d].ptr, pre[d].shape, pre[d].strides, pre[d].esz)
 		}
@@ -609,7 +641,19 @@ func outsideDestChanged(w *World, i int, pre []winRec, dests []int) (int, bool) 
 	}
 	bad, found := 0, false
 	addressed(p.shape, p.strides, func(off int) {
-		if found || off < 0 || (off+1)*p.esz > len(now) {
+		if found || off < 0 {
+			return
+		}
+		if mask {
+			if off >= len(nowMask) || nowMask[off] == p.mask[off] {
+				return
+			}
+			if !allowed[p.mptr+uintptr(off)] {
+				bad, found = off, true
+			}
+			return
+		}
+		if (off+1)*p.esz > len(now) {
 			return
 		}
 		lo := off * p.esz
